@@ -6,10 +6,11 @@ import CashewsVerif.Model.Decor.Hit
 /- Driver for C14: runs one history (`call` / `adv` / `done`) on the early / soft / failover / hit model.
 
   case <early|soft|fail|hit> ttl=<ticks> inner=<ticks> hits=<n> upd=<n> bg=<0|1>   -> ok
-  call <outcome> [<dur>]       -> model=<fresh:s:id|stored:s:id|raised:lis|raised:unl|storeerr:lis|storeerr:unl|broken> x=<0|1> b=<0|1> n=<in flight> t=<clock after>
+  call <outcome> [<dur>]       -> model=<fresh:s:id|stored:s:id|raised:lis|raised:unl|storeerr:lis|storeerr:unl|joined:id|broken> x=<0|1> b=<0|1> n=<in flight> t=<clock after>
                                   (<dur>, default 0: ticks the function body takes if it runs inside the call)
   adv <ticks>                  -> model=ok n=<in flight> t=<clock after>
-  done <i> <outcome>           -> model=<noop|stored|skipped|failed> n=<in flight> t=<clock after>
+  done <i> <outcome>           -> model=<noop|stored|skipped|failed> n=<in flight> t=<clock after> [w=<what the callers parked on that
+                                  recalculation (early: `joined:id`) are handed: fresh:s:id|raised:…|storeerr:…|->]
   outcome = ok | lis | unl | rej (the condition turns the result down)
           | preL | preU (condition / callable ttl raises a listed / unlisted exception) | setL | setU (backend.set raises)
 -/
@@ -51,6 +52,7 @@ def showRes : Res → String
   | .stored s i => s!"stored:{s}:{i}"
   | .raised o => s!"raised:{showOutcome o}"
   | .storeErr l => if l then "storeerr:lis" else "storeerr:unl"
+  | .joined i => s!"joined:{i}"
   | .broken => "broken"
 
 def b01 (b : Bool) : String := if b then "1" else "0"
@@ -91,7 +93,14 @@ def step (st : St) (line : String) : St × String :=
     | some op =>
       match st with
       | .none => (st, "bad-op")
-      | .early c s => let r := Early.step c s op; (.early c r.1, s!"{showAns r.2} n={r.1.inflight.length} t={r.1.t.now}")
+      | .early c s =>
+        let r := Early.step c s op
+        let w := match op with
+          | .done i o => match Early.joinedAnswer s i o with
+            | some res => s!" w={showRes res}"
+            | none => " w=-"
+          | _ => ""
+        (.early c r.1, s!"{showAns r.2} n={r.1.inflight.length} t={r.1.t.now}{w}")
       | .soft c s => let r := Soft.step c s op; (.soft c r.1, s!"{showAns r.2} n=0 t={r.1.t.now}")
       | .fail c s => let r := Fail.step c s op; (.fail c r.1, s!"{showAns r.2} n=0 t={r.1.t.now}")
       | .hit c s => let r := Hit.step c s op; (.hit c r.1, s!"{showAns r.2} n={r.1.inflight.length} t={r.1.t.now}")
